@@ -62,6 +62,9 @@ type verifTierC struct {
 	MaxTokens int                 ` + "`json:\"max_tokens\"`" + `
 	Seps      []string            ` + "`json:\"seps\"`" + `
 	Vocab     map[string][]string ` + "`json:\"vocab\"`" + `
+	Core      map[string][]string ` + "`json:\"core\"`" + `
+	Hostile   []string            ` + "`json:\"hostile\"`" + `
+	Deep      int                 ` + "`json:\"deep_tokens\"`" + `
 }
 
 var verifHandlers = map[string]func(string) bool{
@@ -113,6 +116,46 @@ func TestVerifTierC(t *testing.T) {
 			}
 		}
 		rec("", 0)
+		// deeper pass: sequences of up to cfg.Deep tokens from the core vocabulary with exactly one hostile token
+		core := cfg.Core[name]
+		var deep func(prefix string, n int, usedHostile bool)
+		deep = func(prefix string, n int, usedHostile bool) {
+			try := func(tok string, host bool) {
+				var cands []string
+				if n == 0 {
+					cands = []string{tok}
+				} else {
+					for _, sep := range cfg.Seps {
+						cands = append(cands, prefix+sep+tok)
+					}
+				}
+				for _, v := range cands {
+					if usedHostile || host {
+						r.Evaluated++
+						if h(v) {
+							r.Accepted++
+							if forb.MatchString(v) && len(r.Bad) < 5 {
+								r.Bad = append(r.Bad, v)
+							}
+						}
+					}
+					if n+1 < cfg.Deep {
+						deep(v, n+1, usedHostile || host)
+					}
+				}
+			}
+			for _, tok := range core {
+				try(tok, false)
+			}
+			if !usedHostile {
+				for _, tok := range cfg.Hostile {
+					try(tok, true)
+				}
+			}
+		}
+		if cfg.Deep > cfg.MaxTokens {
+			deep("", 0, false)
+		}
 	}
 	ob, _ := json.Marshal(out)
 	fmt.Println("VERIF-TIERC " + string(ob))
@@ -155,6 +198,7 @@ func tierC(repo, verifDir, prop, forbidden string, handlers []string, thorough b
 	hostile := []string{"url(javascript:x)", "url(x)", "expression(x)", "<", ">", "\\", "@import", "javascript:x", "data:x", "url(", "</style>"}
 	samples := []string{"1px", "10%", "0", "1", "#fff", "red", "auto", "none", "1s", "rgb(1,2,3)", "url(http://a/b.png)", "solid", "a", "'a'", "1.5"}
 	vocab := map[string][]string{}
+	core := map[string][]string{}
 	var reg strings.Builder
 	for _, k := range handlers {
 		fn := w.funcs[k]
@@ -166,13 +210,22 @@ func tierC(repo, verifDir, prop, forbidden string, handlers []string, thorough b
 			v = append(v[:45-len(hostile)], hostile...)
 		}
 		vocab[fn.Name()] = v
+		c := stringConsts(fn)
+		if len(c) > 7 {
+			c = c[:7]
+		}
+		core[fn.Name()] = append(c, "1px", "10%", "auto", "red", "1")
 		fmt.Fprintf(&reg, "\t%q: %s,\n", fn.Name(), fn.Name())
 	}
 	maxTok := 2
 	if thorough {
 		maxTok = 3
 	}
-	cfg := map[string]interface{}{"forbidden": forbidden, "max_tokens": maxTok, "seps": []string{" ", ",", "/", ""}, "vocab": vocab}
+	deepTok := 3
+	if thorough {
+		deepTok = 4
+	}
+	cfg := map[string]interface{}{"forbidden": forbidden, "max_tokens": maxTok, "seps": []string{" ", ",", "/", ""}, "vocab": vocab, "core": core, "hostile": hostile, "deep_tokens": deepTok}
 	work := filepath.Join(verifDir, "work", "handlers")
 	os.MkdirAll(work, 0o755)
 	cb, _ := json.Marshal(cfg)
@@ -190,7 +243,7 @@ func tierC(repo, verifDir, prop, forbidden string, handlers []string, thorough b
 				Bad       []string `json:"bad"`
 			}
 			json.Unmarshal([]byte(strings.TrimPrefix(l, "VERIF-TIERC ")), &res)
-			report["bound"] = fmt.Sprintf("all values of at most %d tokens from (string constants of the handler ∪ sample values ∪ hostile fragments) glued by ' ', ',', '/', ''", maxTok)
+			report["bound"] = fmt.Sprintf("all values of at most %d tokens from (string constants of the handler ∪ sample values ∪ hostile fragments) glued by ' ', ',', '/', ''; plus all values of at most %d tokens from a core vocabulary (first string constants of the handler, 1px, 10%%, auto, red, 1) containing exactly one hostile fragment", maxTok, deepTok)
 			report["results"] = res
 			total := 0
 			for name, r := range res {
